@@ -23,6 +23,7 @@ FP3 == {<<0, 0>>, <<0, 5120>>, <<-3072, 0>>}
 FP4 == {<<0, 0>>, <<0, 5120>>, <<0, 2560>>, <<-3072, 0>>}
 FP6 == FP4 \cup {<<3072, 0>>, <<1024, -7168>>}
 Pad0 == {0}
+Pad01 == {0, 1}
 Pad02 == {0, 2}
 W2 == {512, 640}                                                       \* 0.5, 0.625 um
 W4 == {512, 640, 448, 1024}
